@@ -66,3 +66,37 @@ package loading
 //@   invariant [existing_kept] old(into.Aliases) != nil ==> (forall k label.TargetLabel :: {has(into.Aliases, k)} old(has(into.Aliases, k)) ==> has(into.Aliases, k) && into.Aliases[k] == old(into.Aliases[k]))
 //@   invariant [targets_done] (forall k label.TargetLabel :: {has(from.Targets, k)} has(from.Targets, k) ==> has(into.Targets, k) && into.Targets[k] == from.Targets[k] && !(old(into.Targets) != nil && old(has(into.Targets, k)))) &&
 //@        (old(into.Targets) != nil ==> (forall k label.TargetLabel :: {has(into.Targets, k)} old(has(into.Targets, k)) ==> has(into.Targets, k) && into.Targets[k] == old(into.Targets[k])))
+
+// C16: "one loader per file name, shared enrichment": whatever the format, a loaded package is this function of its DTO.
+// enriched(t, d, pkg, key): target t carries DTO d field by field (command, tags, fingerprint, output checks, environment,
+// declared inputs and excludes, one dependency label per declared dependency, the resolved inputs, timeout unset when the
+// DTO has none, the target's own platforms or else the package default), under label {key, d.Name}.
+//@ func getEnrichedPackage(logger, packagePath, pkg) (r, err)
+//@   pure
+//@   allocates r
+//@   define KEY() string = ite(packagePath == ".", "", packagePath)
+//@   ensures [every_target_registered] err == nil ==> r != nil && r.Targets != nil && (forall i int :: {pkg.Targets[i]} 0 <= i && i < len(pkg.Targets) ==>
+//@        has(r.Targets, mkLabel(KEY(), pkg.Targets[i].Name)) && enrichedId(r.Targets[mkLabel(KEY(), pkg.Targets[i].Name)], pkg.Targets[i], pkg, KEY()))
+//@   ensures [fields_copied] err == nil ==> (forall i int :: {pkg.Targets[i]} 0 <= i && i < len(pkg.Targets) ==> enrichedFields(r.Targets[mkLabel(KEY(), pkg.Targets[i].Name)], pkg.Targets[i]))
+//@   ensures [derived_fields] err == nil ==> (forall i int :: {pkg.Targets[i]} 0 <= i && i < len(pkg.Targets) ==> enrichedDerived(r.Targets[mkLabel(KEY(), pkg.Targets[i].Name)], pkg.Targets[i], pkg))
+//@   ensures [platforms_own_or_package_default] err == nil ==> (forall i int :: {pkg.Targets[i]} 0 <= i && i < len(pkg.Targets) ==> enrichedPlatforms(r.Targets[mkLabel(KEY(), pkg.Targets[i].Name)], pkg.Targets[i], pkg))
+//@   ensures [duplicate_names_rejected] err == nil ==> (forall i int, j int :: {pkg.Targets[i], pkg.Targets[j]} 0 <= i && i < j && j < len(pkg.Targets) ==> pkg.Targets[i].Name != pkg.Targets[j].Name)
+//@ loop #1
+//@   invariant [key] packagePath == ite(rangeindex >= 0, KEY(), old(packagePath)) && targets != nil
+//@   invariant [registered_so_far] forall i int :: {pkg.Targets[i]} 0 <= i && i <= rangeindex ==>
+//@        has(targets, mkLabel(KEY(), pkg.Targets[i].Name)) && allocated(targets[mkLabel(KEY(), pkg.Targets[i].Name)]) && enrichedId(targets[mkLabel(KEY(), pkg.Targets[i].Name)], pkg.Targets[i], pkg, KEY())
+//@   invariant [fields_so_far] forall i int :: {pkg.Targets[i]} 0 <= i && i <= rangeindex ==> enrichedFields(targets[mkLabel(KEY(), pkg.Targets[i].Name)], pkg.Targets[i])
+//@   invariant [derived_so_far] forall i int :: {pkg.Targets[i]} 0 <= i && i <= rangeindex ==> enrichedDerived(targets[mkLabel(KEY(), pkg.Targets[i].Name)], pkg.Targets[i], pkg)
+//@   invariant [platforms_so_far] forall i int :: {pkg.Targets[i]} 0 <= i && i <= rangeindex ==> enrichedPlatforms(targets[mkLabel(KEY(), pkg.Targets[i].Name)], pkg.Targets[i], pkg)
+//@   invariant [names_distinct_so_far] forall i int, j int :: {pkg.Targets[i], pkg.Targets[j]} 0 <= i && i < j && j <= rangeindex ==> pkg.Targets[i].Name != pkg.Targets[j].Name
+//@   invariant [only_dto_names] forall l label.TargetLabel :: {has(targets, l)} has(targets, l) ==> (exists i int :: 0 <= i && i <= rangeindex && l == mkLabel(KEY(), pkg.Targets[i].Name))
+//@ loop #2
+//@   invariant [deps_parsed] len(deps) == rangeindex + 1
+//@ loop #3
+//@   invariant [registered] targets != nil && (forall i int :: {pkg.Targets[i]} 0 <= i && i < len(pkg.Targets) ==>
+//@        has(targets, mkLabel(KEY(), pkg.Targets[i].Name)) && allocated(targets[mkLabel(KEY(), pkg.Targets[i].Name)]) && enrichedId(targets[mkLabel(KEY(), pkg.Targets[i].Name)], pkg.Targets[i], pkg, KEY()))
+//@   invariant [fields] forall i int :: {pkg.Targets[i]} 0 <= i && i < len(pkg.Targets) ==> enrichedFields(targets[mkLabel(KEY(), pkg.Targets[i].Name)], pkg.Targets[i])
+//@   invariant [derived] forall i int :: {pkg.Targets[i]} 0 <= i && i < len(pkg.Targets) ==> enrichedDerived(targets[mkLabel(KEY(), pkg.Targets[i].Name)], pkg.Targets[i], pkg)
+//@   invariant [platforms] forall i int :: {pkg.Targets[i]} 0 <= i && i < len(pkg.Targets) ==> enrichedPlatforms(targets[mkLabel(KEY(), pkg.Targets[i].Name)], pkg.Targets[i], pkg)
+//@   invariant [names_distinct] forall i int, j int :: {pkg.Targets[i], pkg.Targets[j]} 0 <= i && i < j && j < len(pkg.Targets) ==> pkg.Targets[i].Name != pkg.Targets[j].Name
+//@   invariant [key] packagePath == KEY() || (packagePath == old(packagePath) && len(pkg.Targets) == 0)
